@@ -15,7 +15,8 @@ ID = "C04"
 RULE = ("hist: random histories (4-25 ops: put/touch/get/DELETE/trash-list item with exact, off-by-one-ns, other-volume "
         "and unrelated mtimes and with/without mount uuid/untrash/empty-trash/tick/bad-body/unauthenticated) over 3 hashes "
         "on 1-2 Directory volumes (writable/read-only, Serialize on/off), TTL 0-8 units, trash lifetime 0-4 units, "
-        "BlobTrash on/off, planted intact/corrupt copies and trash entries of arbitrary age; non-trivial = the history "
+        "BlobTrash on/off, read-only volumes of both kinds (Volumes.*.ReadOnly and AccessViaHosts.<url>.ReadOnly), DELETE of copies "
+        "half a second younger / older than the TTL, planted intact/corrupt copies and trash entries of arbitrary age; non-trivial = the history "
         "removes or restores at least one copy. race: schedules of P in {TOUCH, PUT} against T in {DELETE, TrashItem} on "
         "one block for Serialize in {0,1}, lifetime in {0,>0}, pre-existing copy in {absent, intact, corrupt}, age in "
         "{old, fresh}; thorough enumerates every placement of T's steps between P's steps, quick samples; non-trivial = "
@@ -161,7 +162,8 @@ def _gen_hist_one(rng):
     nvol = rng.choice([1, 2, 2])
     vols = []
     for _ in range(nvol):
-        vols.append(("w" if rng.random() < 0.8 else "r") + rng.choice("sn"))
+        # w = writable, r = Volumes.*.ReadOnly, a = read-only for this server through AccessViaHosts
+        vols.append(rng.choice("wwwwwwwwwwwwwwwrrraa") + rng.choice("sn"))
     hs = ["h0", "h1", "h2"][:rng.choice([1, 2, 2, 3])]
     init, seen = [], set()
     for _ in range(rng.choice([0, 1, 2, 3, 4, 5])):
@@ -189,8 +191,11 @@ def _gen_hist_one(rng):
             ops.append("touch:" + h)
         elif r < 0.42:
             ops.append("get:" + h)
-        elif r < 0.54:
+        elif r < 0.50:
             ops.append("del:" + h)
+        elif r < 0.54:
+            # DELETE of a copy half a second younger / older than the TTL
+            ops.append(rng.choice(["ndel:", "odel:"]) + h)
         elif r < 0.70:
             m = rng.random()
             if m < 0.5:
@@ -352,12 +357,17 @@ def oracle(case, impl):
         return "malformed hist output"
     c, steps, t_end = w
     ttl, life = c["ttl"], c["life"]
-    ro = [v[0] == "r" for v in c["vols"]]
+    ro = [v[0] != "w" for v in c["vols"]]
     planted_corrupt = {it.split(":")[1] for it in c["init"] if it.split(":")[2] == "c"}
     ack = {}
     for i, p, r, t, before, after in steps:
         op = p[0]
         h = p[1] if len(p) > 1 and op != "tick" else None
+        if op in ("ndel", "odel"):
+            # the driver has just re-aged every copy of h to TTL -/+ half a second: an earlier
+            # acknowledgement of h no longer says anything about these files (ndel has its own rule below)
+            ack.pop(h, None)
+            before = [({x: ((cl, ttl) if x == h else (cl, a)) for x, (cl, a) in bb.items()}, tb) for bb, tb in before]
         # ---- sentence 1: acknowledged PUT/TOUCH protects for TTL
         for hh, ta in ack.items():
             if t < ta + ttl:
@@ -375,7 +385,9 @@ def oracle(case, impl):
             gone = [x for x in bb if x not in ba]
             for x in gone:
                 cls, age = bb[x]
-                if op not in ("del", "ti"):
+                if op == "ndel":
+                    return "op %d (%s) trashed %s on volume %d although it was half a second younger than the TTL" % (i, ":".join(p), x, vi)
+                if op not in ("del", "odel", "ti"):
                     return "op %d (%s) removed block %s from volume %d" % (i, ":".join(p), x, vi)
                 if x != h:
                     return "op %d (%s) removed another block %s" % (i, ":".join(p), x)
@@ -411,7 +423,7 @@ def oracle(case, impl):
                 elif op == "tick":
                     if not any(e2[0] == e[0] and e2[1] == e[1] - int(p[1]) for e2 in ta_):
                         return "op %d: trash entry vanished during tick" % i
-                elif op in ("del", "ti") and any(e2[0] == e[0] and e2[1] == e[1] for e2 in ta_):
+                elif op in ("del", "odel", "ti") and any(e2[0] == e[0] and e2[1] == e[1] for e2 in ta_):
                     pass  # replaced by an entry of the same name
                 else:
                     return "op %d (%s) removed trash entry %s.T%d on volume %d" % (i, ":".join(p), e[0], e[1], vi)
